@@ -12,8 +12,8 @@
    Environment.Delete                                         env_delete
    evalAssignment (= and :=)                                  AAssign
    evalPrefixIncrDecr, evalPostfixExpression                  AIncr
-   evalIndexAssigment                                         AIdxSet   (containers: the pure values of Containers.v,
-   deleteMapEntry                                             ADelElem   i.e. the code after the clone-before-write repairs)
+   evalIndexAssigment                                         AIdxSet   (containers are immutable values:
+   deleteMapEntry                                             ADelElem   the code after C06's clone-before-write repairs)
    evalForInteger / evalForList (loop variable binding)       AForInt / AForList
    extendFunctionEnv (parameter binding, register fast path)  ACall
    evalIdentifier                                             ARead
@@ -23,8 +23,12 @@
    false = pinned code, where index assignment and del on a large array / map had already changed the stored value
    when CreateOrSet compared old and new).
 
-   Values: integers, nil, arrays and integer-keyed maps of those (Containers.pval), and at top level also strings,
-   booleans and floats (multiples of 1/4).  On this domain object.Equals is equality. *)
+   cfg: strict_eq = the same-value escape hatch of CreateOrSet uses object.Identical (repair 2d0dbce: same type, exact
+   number, pairwise identical elements / keys / values); false = pinned code, object.Equals, which inside containers
+   orders integers and floats together and treats -0.0 as 0.0.
+
+   Values: integers, floats (multiples of 1/4, and -0.0), nil, strings, booleans, arrays and maps of those at any depth;
+   map keys are numbers and strings.  object.Identical on this domain is equality. *)
 From Coq Require Import List ZArith NArith Bool Arith.
 From GrolGen Require Import Gen_Consts.
 From GrolModel Require Import Containers.
@@ -53,42 +57,155 @@ Fixpoint constant_from (first : bool) (n : name) : bool :=
 Definition constant_name (n : name) : bool := constant_from true n.
 
 (* ---- values *)
+Inductive num : Type :=
+| NInt (z : Z)
+| NFlt (q : Z)          (* the float q/4 ; NFlt 0 is +0.0 *)
+| NNegZero.             (* -0.0 *)
+
+Inductive key : Type :=
+| KNum (n : num)
+| KStr (s : list N).
+
 Inductive cval : Type :=
-| CV (p : pval)
-| CStr (s : list N)
-| CBool (b : bool)
-| CFlt (q : Z).        (* the float q/4 *)
+| XNum (n : num)
+| XNil
+| XStr (s : list N)
+| XBool (b : bool)
+| XArr (l : list cval)
+| XMap (l : list (key * cval)).    (* pairs sorted by key (object.Cmp) *)
 
-Fixpoint pval_eqb (a b : pval) : bool :=
+(* numeric value in quarters: the order object.Cmp puts on integers and floats together (exact since b7336f5) *)
+Definition num_q (n : num) : Z := match n with NInt z => 4 * z | NFlt q => q | NNegZero => 0 end.
+
+Fixpoint bytes_cmp (a b : list N) : comparison :=
   match a, b with
-  | PInt x, PInt y => Z.eqb x y
-  | PNil, PNil => true
-  | PArr l, PArr r =>
-    (fix go (l r : list pval) : bool :=
+  | [], [] => Eq
+  | [], _ :: _ => Lt
+  | _ :: _, [] => Gt
+  | x :: a', y :: b' => match (x ?= y)%N with Eq => bytes_cmp a' b' | c => c end
+  end.
+
+(* object.Cmp on keys: numbers before strings (type order), numbers by value, strings bytewise *)
+Definition key_cmp (a b : key) : comparison :=
+  match a, b with
+  | KNum x, KNum y => (num_q x ?= num_q y)%Z
+  | KNum _, KStr _ => Lt
+  | KStr _, KNum _ => Gt
+  | KStr x, KStr y => bytes_cmp x y
+  end.
+
+(* SmallMap.get / BinarySearchFunc: (found, index or insertion point) *)
+Fixpoint kfind {A} (l : list (key * A)) (k : key) (i : nat) : bool * nat :=
+  match l with
+  | [] => (false, i)
+  | (k', _) :: t =>
+    match key_cmp k' k with
+    | Gt => (false, i)
+    | Eq => (true, i)
+    | Lt => kfind t k (S i)
+    end
+  end.
+
+(* m.kv[i].Value = value: the stored key object stays (M[1.0]=v on a map holding key 1 keeps the integer key) *)
+Fixpoint xset_val_at {A} (l : list (key * A)) (i : nat) (v : A) : list (key * A) :=
+  match l, i with
+  | [], _ => []
+  | (k, _) :: t, O => (k, v) :: t
+  | a :: t, S i' => a :: xset_val_at t i' v
+  end.
+
+Definition xmap_set {A} (l : list (key * A)) (k : key) (v : A) : list (key * A) :=
+  let (found, i) := kfind l k 0 in
+  if found then xset_val_at l i v else insert_at l i (k, v).
+Definition xmap_del {A} (l : list (key * A)) (k : key) : option (list (key * A)) :=
+  let (found, i) := kfind l k 0 in
+  if found then Some (remove_at l i) else None.
+
+(* evalIndexAssigment on the (immutable, after C06) value of the binding *)
+Definition x_idx_set (xv : cval) (k : key) (v : cval) : res cval :=
+  match xv with
+  | XArr l =>
+    match k with
+    | KNum (NInt i) =>
+      match idx_norm (length l) i with
+      | None => Err
+      | Some j => l' <- lift (set_nth l j v) ;; Ok (XArr l')
+      end
+    | _ => Err                      (* index assignment to array with non integer index *)
+    end
+  | XMap l => Ok (XMap (xmap_set l k v))
+  | _ => Err
+  end.
+
+(* object.Identical: exact structural equality *)
+Definition num_eqb (a b : num) : bool :=
+  match a, b with
+  | NInt x, NInt y => Z.eqb x y
+  | NFlt x, NFlt y => Z.eqb x y
+  | NNegZero, NNegZero => true
+  | _, _ => false
+  end.
+Definition key_eqb (a b : key) : bool :=
+  match a, b with
+  | KNum x, KNum y => num_eqb x y
+  | KStr x, KStr y => name_eqb x y
+  | _, _ => false
+  end.
+Fixpoint cval_eqb (a b : cval) : bool :=
+  match a, b with
+  | XNum x, XNum y => num_eqb x y
+  | XNil, XNil => true
+  | XStr x, XStr y => name_eqb x y
+  | XBool x, XBool y => Bool.eqb x y
+  | XArr l, XArr r =>
+    (fix go (l r : list cval) : bool :=
        match l, r with
        | [], [] => true
-       | x :: l', y :: r' => pval_eqb x y && go l' r'
+       | x :: l', y :: r' => cval_eqb x y && go l' r'
        | _, _ => false
        end) l r
-  | PMap l, PMap r =>
-    (fix go (l r : list (Z * pval)) : bool :=
+  | XMap l, XMap r =>
+    (fix go (l r : list (key * cval)) : bool :=
        match l, r with
        | [], [] => true
-       | (k, x) :: l', (k', y) :: r' => Z.eqb k k' && pval_eqb x y && go l' r'
+       | (k, x) :: l', (k', y) :: r' => key_eqb k k' && cval_eqb x y && go l' r'
        | _, _ => false
        end) l r
   | _, _ => false
   end.
 
-(* object.Equals on the modelled values: same type and Cmp == 0 *)
-Definition cval_eqb (a b : cval) : bool :=
+(* object.Equals (the pinned same-value test): TypeEqual at the top, then Cmp == 0, which below the top compares
+   integers and floats by value *)
+Definition key_cmp0 (a b : key) : bool := match key_cmp a b with Eq => true | _ => false end.
+Fixpoint cval_cmp0 (a b : cval) : bool :=
   match a, b with
-  | CV x, CV y => pval_eqb x y
-  | CStr x, CStr y => name_eqb x y
-  | CBool x, CBool y => Bool.eqb x y
-  | CFlt x, CFlt y => Z.eqb x y
+  | XNum x, XNum y => Z.eqb (num_q x) (num_q y)
+  | XNil, XNil => true
+  | XStr x, XStr y => name_eqb x y
+  | XBool x, XBool y => Bool.eqb x y
+  | XArr l, XArr r =>
+    (fix go (l r : list cval) : bool :=
+       match l, r with
+       | [], [] => true
+       | x :: l', y :: r' => cval_cmp0 x y && go l' r'
+       | _, _ => false
+       end) l r
+  | XMap l, XMap r =>
+    (fix go (l r : list (key * cval)) : bool :=
+       match l, r with
+       | [], [] => true
+       | (k, x) :: l', (k', y) :: r' => key_cmp0 k k' && cval_cmp0 x y && go l' r'
+       | _, _ => false
+       end) l r
   | _, _ => false
   end.
+Definition same_type (a b : cval) : bool :=
+  match a, b with
+  | XNum (NInt _), XNum (NInt _) => true
+  | XNum (NInt _), XNum _ | XNum _, XNum (NInt _) => false
+  | _, _ => true                 (* other differences of type are seen by Cmp *)
+  end.
+Definition cval_equals (a b : cval) : bool := same_type a b && cval_cmp0 a b.
 
 (* ---- environments *)
 Inductive obj : Type :=
@@ -180,12 +297,18 @@ Definition set_no_checks (e : env) (n : name) (v : cval) (create : bool) : env :
       end
     end.
 
+Record ccfg := mkccfg { use_reg : bool; const_test : bool; ccow : bool; strict_eq : bool }.
+
+(* the same-value test of CreateOrSet *)
+Definition same_value (c : ccfg) (old v : cval) : bool :=
+  if strict_eq c then cval_eqb old v else cval_equals old v.
+
 (* Environment.CreateOrSet: the environment may change even on error (Get leaves a reference behind) *)
-Definition create_or_set (e : env) (n : name) (v : cval) (create : bool) : env * res cval :=
+Definition create_or_set (c : ccfg) (e : env) (n : name) (v : cval) (create : bool) : env * res cval :=
   if constant_name n then
     match env_get e n with
-    | Some (e1, OVal old) => if cval_eqb old v then (set_no_checks e1 n v create, Ok v) else (e1, Err)
-    | Some (e1, ORef _ _) => (e1, Err)   (* Equals(old, val) with old a Reference: the types differ, never equal *)
+    | Some (e1, OVal old) => if same_value c old v then (set_no_checks e1 n v create, Ok v) else (e1, Err)
+    | Some (e1, ORef _ _) => (e1, Err)   (* the old value is a Reference: the types differ, never the same *)
     | None => (set_no_checks e n v create, Ok v)
     end
   else (set_no_checks e n v create, Ok v).
@@ -209,110 +332,171 @@ Definition read_name (e : env) (n : name) : env * res cval :=
   end.
 
 (* ---- attempts *)
-Record ccfg := mkccfg { use_reg : bool; const_test : bool; ccow : bool }.
+(* right-hand sides: a literal, or an expression that makes an ALIAS of the value of another binding (by
+   assignment, slicing, storing in a container and taking it out again, returning it from a function, passing it
+   as a parameter that the callee index-assigns, appending to it) *)
+Inductive expr :=
+| ELit (v : cval)
+| EName (y : name)                          (* y *)
+| ESlice (y : name) (l r : Z)               (* y[l:r] *)
+| EWrap (y : name)                          (* [y] *)
+| EIndex (y : name) (k : key)               (* y[k] *)
+| ERet (y : name)                           (* func(){y}() *)
+| EAppend (y : name) (v : cval)             (* y+[v] *)
+| ECallSet (y : name) (k : key) (v : cval). (* func(pp){pp[k]=v;pp}(y) *)
 
 Inductive attempt :=
-| AAssign (n : name) (v : cval) (define : bool)   (* n = v   /   n := v *)
+| AAssign (n : name) (ex : expr) (define : bool)  (* n = ex   /   n := ex *)
 | AIncr (n : name) (delta : Z) (pre : bool)       (* n++ n--  /  ++n --n *)
-| AIdxSet (n : name) (i : Z) (v : pval)           (* n[i] = v *)
-| ADelElem (n : name) (k : Z)                     (* del(n[k]) *)
+| AIdxSet (n : name) (k : key) (v : cval)         (* n[k] = v *)
+| ADelElem (n : name) (k : key)                   (* del(n[k]) *)
 | ADelete (n : name)                              (* del(n) *)
 | AForInt (n : name) (a b : Z)                    (* for n = a:b { n } *)
-| AForList (n : name) (l : list pval)             (* for n = [l...] { n } *)
+| AForList (n : name) (l : list cval)             (* for n = [l...] { n } *)
 | ACall (n : name) (v : cval)                     (* func(n){n}(v) *)
 | ARead (n : name).                               (* n *)
 
 Inductive scope := STop | SFn | SFn2 | SLoop.     (* at top level / inside func(){..}() / two deep / inside for 2 {..} *)
 Inductive event := Ev (s : scope) (a : attempt).
 
-Definition is_big (v : pval) : bool :=
+Definition is_big (v : cval) : bool :=
   match v with
-  | PArr l => Z.to_nat object_MaxSmallArray <? length l
-  | PMap l => Z.to_nat object_MaxSmallMap <? length l
+  | XArr l => Z.to_nat object_MaxSmallArray <? length l
+  | XMap l => Z.to_nat object_MaxSmallMap <? length l
   | _ => false
   end.
 
 (* s.env.Set(n, new container) after an index assignment or del.  Pinned code (ccow = false): a large container
    had been written in place, so the binding already shows the new value when CreateOrSet compares *)
-Definition set_container (c : ccfg) (e : env) (n : name) (old nv : pval) : env * res cval :=
-  let e0 := if negb (ccow c) && is_big old then set_no_checks e n (CV nv) false else e in
-  create_or_set e0 n (CV nv) false.
+Definition set_container (c : ccfg) (e : env) (n : name) (old nv : cval) : env * res cval :=
+  let e0 := if negb (ccow c) && is_big old then set_no_checks e n nv false else e in
+  create_or_set c e0 n nv false.
 
-Definition is_int (v : cval) : bool := match v with CV (PInt _) => true | _ => false end.
+Definition is_int (v : cval) : bool := match v with XNum (NInt _) => true | _ => false end.
 
 (* the loop-variable / parameter is held in a register: not a binding at all *)
 Definition reg_bound (c : ccfg) (n : name) : bool :=
   use_reg c && negb (const_test c && constant_name n).
 
-Fixpoint for_values (e : env) (n : name) (vs : list cval) (last : cval) : env * res cval :=
+Fixpoint for_values (c : ccfg) (e : env) (n : name) (vs : list cval) (last : cval) : env * res cval :=
   match vs with
   | [] => (e, Ok last)
   | v :: t =>
     (* s.env.Set(name, v): the result is ignored *)
-    let (e1, _) := create_or_set e n v false in
+    let (e1, _) := create_or_set c e n v false in
     match read_name e1 n with
-    | (e2, Ok r) => for_values e2 n t r
+    | (e2, Ok r) => for_values c e2 n t r
     | (e2, x) => (e2, x)
     end
   end.
 
 Fixpoint int_range (a : Z) (k : nat) : list cval :=
-  match k with O => [] | S k' => CV (PInt a) :: int_range (a + 1) k' end.
+  match k with O => [] | S k' => XNum (NInt a) :: int_range (a + 1) k' end.
+
+(* evalIndexRangeExpression / evalIndexExpressionIdx / evalArrayInfixExpression on immutable values *)
+Definition x_slice (v : cval) (l r : Z) : res cval :=
+  match v with
+  | XArr a => '(l', r') <- range_norm (length a) l r ;; w <- lift (window a l' (r' - l')) ;; Ok (XArr w)
+  | XMap m => '(l', r') <- range_norm (length m) l r ;; w <- lift (window m l' (r' - l')) ;; Ok (XMap w)
+  | XNil => '(l', r') <- range_norm 0 l r ;; Ok XNil
+  | XStr _ => Dom
+  | _ => Err
+  end.
+Definition x_index (v : cval) (k : key) : res cval :=
+  match v with
+  | XArr a =>
+    match k with
+    | KNum (NInt i) => match idx_norm (length a) i with Some j => lift (nth_error a j) | None => Ok XNil end
+    | _ => Err
+    end
+  | XMap m => let (found, i) := kfind m k 0 in
+              if found then match nth_error m i with Some (_, x) => Ok x | None => Stuck end else Ok XNil
+  | XNil => Ok XNil
+  | XStr _ => Dom
+  | _ => Err
+  end.
+Definition x_append (v : cval) (x : cval) : res cval :=
+  match v with
+  | XArr a => Ok (XArr (a ++ [x]))
+  | _ => Err
+  end.
+
+Definition on_value (r : env * res cval) (f : cval -> res cval) : env * res cval :=
+  match r with
+  | (e1, Ok v) => (e1, f v)
+  | (e1, x) => (e1, x)
+  end.
+
+Definition eval_expr (e : env) (ex : expr) : env * res cval :=
+  match ex with
+  | ELit v => (e, Ok v)
+  | EName y => read_name e y
+  | ESlice y l r => on_value (read_name e y) (fun v => x_slice v l r)
+  | EWrap y => on_value (read_name e y) (fun v => Ok (XArr [v]))
+  | EIndex y k => on_value (read_name e y) (fun v => x_index v k)
+  | ERet y => let (e1, r) := read_name (empty_frame :: e) y in (tl e1, r)
+  | EAppend y x => on_value (read_name e y) (fun v => x_append v x)
+  | ECallSet y k x => on_value (read_name e y) (fun v => x_idx_set v k x)
+  end.
 
 Definition do_attempt (c : ccfg) (e : env) (a : attempt) : env * res cval :=
   match a with
-  | AAssign n v define => create_or_set e n v define
+  | AAssign n ex define =>
+    match eval_expr e ex with
+    | (e1, Ok v) => create_or_set c e1 n v define
+    | (e1, x) => (e1, x)
+    end
   | AIncr n delta pre =>
     match read_name e n with
     | (e1, Ok old) =>
       let nv := match old with
-                | CV (PInt z) => if int64_ok (z + delta) then Ok (CV (PInt (z + delta))) else Dom
-                | CFlt q => Ok (CFlt (q + 4 * delta))
+                | XNum (NInt z) => if int64_ok (z + delta) then Ok (XNum (NInt (z + delta))) else Dom
+                | XNum (NFlt q) => Ok (XNum (NFlt (q + 4 * delta)))
+                | XNum NNegZero => Ok (XNum (NFlt (4 * delta)))
                 | _ => Err
                 end in
       match nv with
-      | Ok w => let (e2, r) := create_or_set e1 n w false in
+      | Ok w => let (e2, r) := create_or_set c e1 n w false in
                 (e2, match r with Ok _ => if pre then r else Ok old | x => x end)
       | Err => (e1, Err) | Dom => (e1, Dom) | Stuck => (e1, Stuck)
       end
     | (e1, x) => (e1, x)
     end
-  | AIdxSet n i v =>
+  | AIdxSet n k v =>
     match read_name e n with
-    | (e1, Ok (CV xv)) =>
-      match p_idx_set xv i v with
+    | (e1, Ok xv) =>
+      match x_idx_set xv k v with
       | Ok nv => let (e2, r) := set_container c e1 n xv nv in
-                 (e2, match r with Ok _ => Ok (CV v) | x => x end)
+                 (e2, match r with Ok _ => Ok v | x => x end)
       | Err => (e1, Err) | Dom => (e1, Dom) | Stuck => (e1, Stuck)
       end
-    | (e1, Ok _) => (e1, Err)
     | (e1, x) => (e1, x)
     end
   | ADelElem n k =>
     match env_get e n with
-    | None => (e, Ok (CBool false))
+    | None => (e, Ok (XBool false))
     | Some (e1, o) =>
       match deref e1 o with
-      | Some (CV (PMap l)) =>
-        match kv_del l k with
-        | Some l' => let (e2, r) := set_container c e1 n (PMap l) (PMap l') in
-                     (e2, match r with Ok _ => Ok (CBool true) | x => x end)
-        | None => (e1, Ok (CBool false))
+      | Some (XMap l) =>
+        match xmap_del l k with
+        | Some l' => let (e2, r) := set_container c e1 n (XMap l) (XMap l') in
+                     (e2, match r with Ok _ => Ok (XBool true) | x => x end)
+        | None => (e1, Ok (XBool false))
         end
       | Some _ => (e1, Err)
       | None => (e1, Stuck)
       end
     end
-  | ADelete n => let (e1, b) := env_delete e n in (e1, Ok (CBool b))
+  | ADelete n => let (e1, b) := env_delete e n in (e1, Ok (XBool b))
   | AForInt n a b =>
     if (b <? a)%Z then (e, Err)
-    else if reg_bound c n then (e, Ok (if (a <? b)%Z then CV (PInt (b - 1)) else CV PNil))
-    else for_values e n (int_range a (Z.to_nat (b - a))) (CV PNil)
-  | AForList n l => for_values e n (map CV l) (CV PNil)
+    else if reg_bound c n then (e, Ok (if (a <? b)%Z then XNum (NInt (b - 1)) else XNil))
+    else for_values c e n (int_range a (Z.to_nat (b - a))) XNil
+  | AForList n l => for_values c e n l XNil
   | ACall n v =>
     if is_int v && reg_bound c n then (e, Ok v)
     else
-      match create_or_set (empty_frame :: e) n v true with
+      match create_or_set c (empty_frame :: e) n v true with
       | (e1, Ok _) => let (e2, r) := read_name e1 n in (tl e2, r)
       | (e1, x) => (tl e1, x)
       end
@@ -346,5 +530,5 @@ Definition root_value (e : env) (n : name) : option cval :=
   | _ => None
   end.
 
-Definition repo_ccfg (reg : bool) : ccfg := mkccfg reg true true.
-Definition pinned_ccfg (reg : bool) : ccfg := mkccfg reg false false.
+Definition repo_ccfg (reg : bool) : ccfg := mkccfg reg true true true.
+Definition pinned_ccfg (reg : bool) : ccfg := mkccfg reg false false false.
